@@ -399,6 +399,26 @@ func checkWriterOutput(rc *RunCtx, prop string, p writerPlan, raw []byte) {
 			got := parseFastx(text, p.Kind == wkFastq)
 			if !equalStrings(got, ids) {
 				rc.Violate(prop+"/"+kind+"/records-differ"+arrivalShape(p), "re-parsed ids: %s", firstDiff(got, ids))
+				return
+			}
+			// the text, read back by the harness' own parser, is the records (the byte
+			// comparison above uses the formatter under test for its expectation)
+			if p.Giant == 0 {
+				back, err := parseObiFastx(text)
+				if err != nil {
+					rc.Violate(prop+"/"+kind+"/not-well-formed"+arrivalShape(p), "the output cannot be read back: %v\n%q", err, clip(string(text), 400))
+					return
+				}
+				gv, ev := make([]string, len(back)), make([]string, len(p.Recs))
+				for i, b := range back {
+					gv[i] = irecOfParsed(b).canon()
+				}
+				for i, r := range p.Recs {
+					ev[i] = irecOf(r).canon()
+				}
+				if !equalStrings(gv, ev) {
+					rc.Violate(prop+"/"+kind+"/content-differs"+arrivalShape(p), "records read back from the output: %s", firstDiff(gv, ev))
+				}
 			}
 		}
 	case wkJSON:
